@@ -100,7 +100,8 @@ def rule_invariant(ctx, repo):
     ctx.check(ok, "C11.invariant", "NumParam.set_pu_coeff", "k := coeff; v[:] = vin*k on every path",
               "set_pu_coeff no longer ends with v[:] = vin * pu_coeff", s.W())
     r = F.method(repo, "NumParam", "restore", PARAM)
-    ctx.check(Q.has("self.v[:] = self.vin", r.fn), "C11.invariant", "NumParam.restore", "v[:] = vin", "restore no longer copies vin into v", r.W())
+    ctx.check(any((Q.copies_into(st_) or (None, None))[0] is not None and [src(x_) for x_ in Q.copies_into(st_)] == ["self.v", "self.vin"]
+                  for st_ in walk_noscope(r.fn)), "C11.invariant", "NumParam.restore", "v[:] = vin", "restore no longer copies vin into v", r.W())
 
     # Model.alter, decided by evaluation (engine/tinyexec.py) over the three kinds of altered object -- a parameter with stored input,
     # a parameter before set-up (vin None), an object without `vin` -- with a symbolic value and coefficient; `set` is a recorder
